@@ -59,3 +59,44 @@ def digest_ast(node):
         else:
             h.update(b"<foreign " + type(v).__name__.encode() + b">")
     return "%s/%d" % (h.hexdigest()[:16], n)
+
+
+# field shapes the AST classes declare (typing annotations are not enforced by dataclasses)
+_OPTIONAL_NONE = {("CollectionLambda", "lambda_")}
+_TUPLE_FIELDS = {("Identifier", "namespace")}
+_STR_FIELDS = {("Identifier", "name"), ("Attribute", "attr")}
+
+
+def malformed(node):
+    """None if `node` is a well-formed AST (every field holds what the class declares), else a short description.
+    Iterative, safe for deep trees."""
+    if not isinstance(node, ast._Node):
+        return "root is %s" % type(node).__name__
+    stack = [node]
+    while stack:
+        n = stack.pop()
+        cname = type(n).__name__
+        for f in fields(n):
+            v = getattr(n, f.name)
+            key = (cname, f.name)
+            if isinstance(v, ast._Node):
+                stack.append(v)
+            elif isinstance(v, list):
+                for e in v:
+                    if not isinstance(e, ast._Node):
+                        return "%s.%s holds a list item of type %s" % (cname, f.name, type(e).__name__)
+                    stack.append(e)
+                if key not in (("List", "val"), ("Call", "args")):
+                    return "%s.%s is a list" % key
+            elif isinstance(v, tuple):
+                if key not in _TUPLE_FIELDS or not all(isinstance(e, str) for e in v):
+                    return "%s.%s is a tuple %r" % (cname, f.name, v)
+            elif isinstance(v, str):
+                if key not in _STR_FIELDS and f.name != "val":
+                    return "%s.%s is a str" % key
+            elif v is None:
+                if key not in _OPTIONAL_NONE:
+                    return "%s.%s is None" % key
+            else:
+                return "%s.%s is %s" % (cname, f.name, type(v).__name__)
+    return None
